@@ -748,7 +748,7 @@ Proof.
       unfold elems_ok in EL. rewrite Forall_forall in *. intros x Hx.
       apply (IHf f ltac:(lia) h); [apply (HD x Hx) | lia | apply (EL x Hx)]. }
     destruct (e_kind e) eqn:K; try (apply ORIG; assumption).
-    destruct (e_dir e) as [d|] eqn:D; [|discriminate].
+    destruct (e_dir e) as [d|] eqn:D; [|congruence].
     rewrite e_dir_set_dir in D1. inversion D1; subst d1.
     specialize (HD d eq_refl). destruct (TreeInv_dir _ _ _ T D) as [[_ EL] _].
     unfold elems_ok in EL. rewrite Forall_forall in *. intros x Hx.
@@ -776,3 +776,612 @@ Proof.
     + destruct (A x Ex) as [_ [_ Tx]]. apply (IHf f ltac:(lia) h); [apply (HA x Ex) | lia | assumption].
     + destruct (B x Ex) as [_ [_ Tx]]. apply (IHf f ltac:(lia) h); [apply (HB x Ex) | lia | assumption].
 Qed.
+
+(* ------------------------------------------------------------------ deviations *)
+Definition attr_same (t t' : entry) : Prop :=
+  e_name t' = e_name t /\ e_kind t' = e_kind t /\ e_dir t' = e_dir t /\ e_rpc t' = e_rpc t /\
+  (e_ty t <> None -> e_ty t' <> None) /\ (e_la t' <> None -> e_la t <> None).
+
+Lemma attr_same_refl : forall t, attr_same t t.
+Proof. intros. unfold attr_same. repeat split; auto. Qed.
+Lemma attr_same_trans : forall a b c, attr_same a b -> attr_same b c -> attr_same a c.
+Proof.
+  unfold attr_same. intros a b c [A1 [A2 [A3 [A4 [A5 A6]]]]] [B1 [B2 [B3 [B4 [B5 B6]]]]].
+  repeat split; try congruence; auto.
+Qed.
+Lemma as_cfg : forall t c, attr_same t (set_cfg t c). Proof. destruct t; intros; unfold attr_same; cbn; repeat split; auto. Qed.
+Lemma as_mand : forall t c, attr_same t (set_mand t c). Proof. destruct t; intros; unfold attr_same; cbn; repeat split; auto. Qed.
+Lemma as_dflt : forall t c, attr_same t (set_dflt t c). Proof. destruct t; intros; unfold attr_same; cbn; repeat split; auto. Qed.
+Lemma as_units : forall t c, attr_same t (set_units t c). Proof. destruct t; intros; unfold attr_same; cbn; repeat split; auto. Qed.
+Lemma as_ty : forall t ty, attr_same t (set_ty t (Some ty)).
+Proof. destruct t; intros; unfold attr_same; cbn. repeat split; auto. intros _; discriminate. Qed.
+Lemma as_la : forall t x, e_la t <> None -> attr_same t (set_la t x).
+Proof. destruct t; intros; unfold attr_same; cbn in *. repeat split; auto. Qed.
+
+Ltac as_solve :=
+  repeat first
+    [ apply attr_same_refl
+    | eapply attr_same_trans; [| first [apply as_cfg | apply as_mand | apply as_dflt | apply as_units | apply as_ty
+                                       | apply as_la; congruence ] ] ].
+
+Ltac split_all :=
+  repeat match goal with
+  | |- context [match ?x with _ => _ end] => first [is_var x; destruct x | destruct x eqn:?]
+  | |- context [if ?x then _ else _] => first [is_var x; destruct x | destruct x eqn:?]
+  end.
+
+Lemma apply_add_replace_same : forall replace dv t, attr_same t (fst (apply_add_replace replace dv t)).
+Proof.
+  intros replace [kind cfg mand dflt mn mx units ty] t. unfold apply_add_replace.
+  cbn [dv_kind dv_cfg dv_mand dv_default dv_min dv_max dv_units dv_type].
+  set (t1 := if is_set cfg then set_cfg t cfg else t).
+  assert (A1 : attr_same t t1) by (subst t1; destruct (is_set cfg); as_solve).
+  clearbody t1.
+  match goal with |- context [let '(t, e1) := ?M in _] => destruct M as [t2 e1] eqn:E2 end.
+  assert (A2 : attr_same t t2).
+  { eapply attr_same_trans; [exact A1|]. destruct dflt as [d|]; [|inversion E2; as_solve].
+    destruct replace; [inversion E2; as_solve|].
+    destruct (isLeafList t1); [inversion E2; as_solve|].
+    destruct (e_dflt t1); inversion E2; as_solve. }
+  clear E2 A1. eapply attr_same_trans; [exact A2|]. clear A2.
+  split_all; cbn [fst]; as_solve.
+Qed.
+
+Lemma apply_delete_same : forall dv t, attr_same t (fst (apply_delete dv t)).
+Proof.
+  intros [kind cfg mand dflt mn mx units ty] t. unfold apply_delete.
+  cbn [dv_kind dv_cfg dv_mand dv_default dv_min dv_max dv_units dv_type].
+  set (t1 := if is_set cfg then set_cfg t TSUnset else t).
+  assert (A1 : attr_same t t1) by (subst t1; destruct (is_set cfg); as_solve).
+  clearbody t1.
+  match goal with |- context [let '(t, e1) := ?M in _] => destruct M as [t2 e1] eqn:E2 end.
+  assert (A2 : attr_same t t2).
+  { eapply attr_same_trans; [exact A1|]. destruct dflt as [d|]; [|inversion E2; as_solve].
+    destruct (isLeafList t1); [inversion E2; as_solve|].
+    destruct (e_dflt t1); [inversion E2; as_solve|].
+    destruct (str_eqb d s); inversion E2; as_solve. }
+  clear E2 A1. eapply attr_same_trans; [exact A2|]. clear A2.
+  split_all; cbn [fst]; as_solve.
+Qed.
+
+Lemma TreeInv_attr_same : forall s t t', TreeInv s t -> attr_same t t' -> TreeInv s t'.
+Proof.
+  intros s t t' T [A1 [A2 [A3 [A4 [A5 A6]]]]]. destruct t, t'. cbn [e_name e_kind e_dir e_rpc e_ty e_la] in *. subst.
+  inversion T as [e' K D R]; subst. constructor; [|exact D | exact R].
+  destruct K as [K1 [K2 K3]]. cbn [e_kind e_dir e_ty e_la] in *. split; [|split].
+  - intro E. destruct (K1 E) as [X Y]. split; [assumption | apply A5; assumption].
+  - exact K2.
+  - intro L. apply K3. apply A6. assumption.
+Qed.
+
+Lemma keep_children_same : forall t t', attr_same t t' -> keep_children t t' = t'.
+Proof.
+  intros t t' [_ [_ [A3 [A4 _]]]]. unfold keep_children. rewrite <- A3, <- A4. destruct t'; reflexivity.
+Qed.
+
+Section DevInv.
+Variable SC : schema.
+
+Lemma apply_deviates_inv : forall ins s dvs F p cur attached err,
+  ForestInv s F -> ForestInv s (fst (fst (fst (apply_deviates ins F p cur attached err dvs)))).
+Proof.
+  intros ins s. induction dvs as [|dv rest IH]; intros F p cur attached err H; cbn [apply_deviates]; [assumption|].
+  destruct (str_eqb (dv_kind dv) s_notsupported).
+  - destruct (rev (snd p)) as [|last up]; [apply IH; assumption|].
+    destruct ins; [apply IH; assumption|].
+    destruct last; try (apply IH; assumption).
+    apply IH. apply update_pos_inv; [assumption|]. intros pe L.
+    pose proof (locate_pos_inv _ _ _ _ H L) as T. unfold keeps.
+    destruct (e_dir pe) as [d|] eqn:D; [|auto].
+    rewrite e_name_set_dir, e_kind_set_dir. split; [|split; reflexivity].
+    destruct (TreeInv_dir _ _ _ T D) as [[ND EL] CH].
+    apply TreeInv_set_dir; [assumption | congruence | |].
+    + split; [apply remove_keys_nodup; assumption | apply Forall_remove; assumption].
+    + intros S1 S2. apply Forall_remove. apply CH; assumption.
+  - destruct (_ || _).
+    + destruct (apply_add_replace _ dv cur). apply IH; assumption.
+    + destruct (str_eqb (dv_kind dv) s_delete); [|apply IH; assumption].
+      destruct (apply_delete dv cur). apply IH; assumption.
+Qed.
+
+Lemma apply_deviates_attr : forall ins dvs F p cur attached err,
+  attr_same cur (snd (fst (fst (apply_deviates ins F p cur attached err dvs)))).
+Proof.
+  intros ins. induction dvs as [|dv rest IH]; intros F p cur attached err; cbn [apply_deviates]; [apply attr_same_refl|].
+  destruct (str_eqb (dv_kind dv) s_notsupported).
+  - destruct (rev (snd p)) as [|last up]; [apply IH|].
+    destruct ins; [apply IH|]. destruct last; apply IH.
+  - destruct (_ || _).
+    + pose proof (apply_add_replace_same (str_eqb (dv_kind dv) s_replace) dv cur) as A.
+      destruct (apply_add_replace _ dv cur) as [cur' e]. eapply attr_same_trans; [exact A | apply IH].
+    + destruct (str_eqb (dv_kind dv) s_delete); [|apply IH].
+      pose proof (apply_delete_same dv cur) as A.
+      destruct (apply_delete dv cur) as [cur' e]. eapply attr_same_trans; [exact A | apply IH].
+Qed.
+
+Lemma apply_deviates_detached : forall ins dvs F p cur err,
+  snd (fst (apply_deviates ins F p cur false err dvs)) = false.
+Proof.
+  intros ins. induction dvs as [|dv rest IH]; intros F p cur err; cbn [apply_deviates]; [reflexivity|].
+  destruct (str_eqb (dv_kind dv) s_notsupported).
+  - destruct (rev (snd p)) as [|last up]; [apply IH|].
+    destruct ins; [apply IH|]. destruct last; apply IH.
+  - destruct (_ || _).
+    + destruct (apply_add_replace _ dv cur). apply IH.
+    + destruct (str_eqb (dv_kind dv) s_delete); [|apply IH]. destruct (apply_delete dv cur). apply IH.
+Qed.
+
+Lemma apply_deviates_attached : forall ins dvs F p cur attached err,
+  snd (fst (apply_deviates ins F p cur attached err dvs)) = true ->
+  fst (fst (fst (apply_deviates ins F p cur attached err dvs))) = F.
+Proof.
+  intros ins. induction dvs as [|dv rest IH]; intros F p cur attached err; cbn [apply_deviates]; [reflexivity|].
+  destruct (str_eqb (dv_kind dv) s_notsupported).
+  - destruct (rev (snd p)) as [|last up]; [apply IH|].
+    destruct ins; [apply IH|]. destruct last; try apply IH.
+    intro H. rewrite apply_deviates_detached in H. discriminate.
+  - destruct (_ || _).
+    + destruct (apply_add_replace _ dv cur). apply IH.
+    + destruct (str_eqb (dv_kind dv) s_delete); [|apply IH]. destruct (apply_delete dv cur). apply IH.
+Qed.
+
+Lemma apply_deviations_inv : forall ins s m devs F err,
+  ForestInv s F -> ForestInv s (fst (apply_deviations SC ins F err m devs)).
+Proof.
+  intros ins s m. induction devs as [|[path dvs] rest IH]; intros F err H; cbn [apply_deviations]; [assumption|].
+  pose proof (Find_inv SC s F m (m_name m, []) path H) as H1.
+  destruct (Find SC F m (m_name m, []) path) as [target F1]. cbn [snd] in H1.
+  destruct target as [p|]; [|apply IH; assumption].
+  destruct (locate_pos F1 p) as [cur|] eqn:L; [|apply IH; assumption].
+  pose proof (apply_deviates_inv ins s dvs F1 p cur true err H1) as H2.
+  pose proof (apply_deviates_attr ins dvs F1 p cur true err) as A.
+  pose proof (apply_deviates_attached ins dvs F1 p cur true err) as AT.
+  destruct (apply_deviates ins F1 p cur true err dvs) as [[[F2 cur'] attached] err']. cbn [fst snd] in *.
+  apply IH. destruct attached; [|assumption].
+  specialize (AT eq_refl). subst F2.
+  apply update_pos_inv; [assumption|]. intros old Lo. rewrite L in Lo. inversion Lo; subst old.
+  unfold keeps. rewrite (keep_children_same _ _ A).
+  split; [eapply TreeInv_attr_same; [eapply locate_pos_inv; eassumption | assumption]|].
+  destruct A as [A1 [A2 _]]. split; assumption.
+Qed.
+
+End DevInv.
+
+(* ------------------------------------------------------------------ Process *)
+Lemma existsb_built : forall (f : module -> built) l,
+  existsb (fun x : module * built => snd (snd x)) (map (fun m => (m, f m)) l) = existsb (fun m => snd (f m)) l.
+Proof. induction l; simpl; auto. rewrite IHl. reflexivity. Qed.
+
+Lemma Process_eq : forall SC ic ins order,
+  Process SC ic ins order =
+  if includes_fail SC then RErr
+  else if existsb (fun x : module * built => snd (snd x)) (map (fun m => (m, module_entry SC ic m)) SC) then RErr
+  else process_tail SC ins order (stage_rounds SC ic order).
+Proof. reflexivity. Qed.
+
+Lemma process_tail_eq : forall SC ic ins order,
+  process_tail SC ins order (stage_rounds SC ic order) =
+  if stage_err4 SC ic ins order then RErr else ROk (stage_F4 SC ic ins order).
+Proof.
+  intros. unfold stage_err4, stage_F4, stage_dev, stage_F3, stage_err3, stage_final, stage_F2, stage_err1, stage_P1, stage_mods1.
+  destruct (stage_rounds SC ic order) as [[[F2 err1] P1] mods1].
+  unfold process_tail. cbn [fst snd].
+  destruct (fold_left (final_step SC) mods1 _) as [[F3 err3] P3].
+  cbn [fst snd].
+  destruct (fold_left (dev_step SC ins) order (F3, err3)) as [F4 err4]. reflexivity.
+Qed.
+
+(* Process, stage by stage: the only ways to RErr *)
+Lemma Process_stages : forall SC ic ins order,
+  Process SC ic ins order =
+  if includes_fail SC then RErr
+  else if build_fail SC ic then RErr
+  else if stage_err4 SC ic ins order then RErr else ROk (stage_F4 SC ic ins order).
+Proof. intros. rewrite Process_eq, existsb_built, process_tail_eq. reflexivity. Qed.
+
+Section ProcessInv.
+Variable SC : schema.
+Variable ic ins : bool.
+Variable order : list str.
+
+Lemma rounds_inv : forall n_aug fuel round F err P mods,
+  ForestInv false F -> PendOk P ->
+  ForestInv false (fst (fst (fst (rounds SC n_aug fuel round F err P mods)))) /\
+  PendOk (snd (fst (rounds SC n_aug fuel round F err P mods))).
+Proof.
+  intros n_aug. induction fuel as [|f IH]; intros round F err P mods HF HP; cbn [rounds]; [split; assumption|].
+  pose proof (augment_loop_inv SC (S n_aug) F err P mods O HF HP) as [A B].
+  destruct (augment_loop SC (S n_aug) F err P mods O) as [[[[Fa erra] Pa] modsa] applied]. cbn [fst snd] in A, B.
+  pose proof (fix_all_inv SC Fa A) as C.
+  destruct modsa as [|m0 modsa']; [split; assumption|].
+  destruct round as [|r]; [apply IH; assumption|].
+  destruct applied; [split; assumption | apply IH; assumption].
+Qed.
+
+Lemma stage_rounds_inv : ForestInv false (stage_F2 SC ic order) /\ PendOk (stage_P1 SC ic order).
+Proof.
+  unfold stage_F2, stage_P1, stage_rounds. apply rounds_inv; [apply stage_F0_inv | apply stage_P0_ok].
+Qed.
+
+Lemma final_fold_inv : forall mods st,
+  ForestInv false (fst (fst st)) -> PendOk (snd st) ->
+  ForestInv false (fst (fst (fold_left (final_step SC) mods st))) /\ PendOk (snd (fold_left (final_step SC) mods st)).
+Proof.
+  induction mods as [|mn mods IH]; intros [[F err] P] HF HP; cbn [fold_left]; [split; assumption|].
+  cbn [fst snd] in HF, HP. apply IH.
+  - unfold final_step.
+    pose proof (augment_module_inv SC _ F err true HF (pend_lookup_ok P mn HP)) as [A B].
+    destruct (augment_module SC F err _ true) as [[[F' err'] n] un]. exact A.
+  - unfold final_step.
+    pose proof (augment_module_inv SC _ F err true HF (pend_lookup_ok P mn HP)) as [A B].
+    destruct (augment_module SC F err _ true) as [[[F' err'] n] un]. cbn [snd] in *.
+    apply pend_update_ok; assumption.
+Qed.
+
+Lemma dev_fold_inv : forall s mods st,
+  ForestInv s (fst st) -> ForestInv s (fst (fold_left (dev_step SC ins) mods st)).
+Proof.
+  intros s. induction mods as [|mn mods IH]; intros st H; cbn [fold_left]; [assumption|].
+  apply IH. unfold dev_step. destruct (find_module SC mn); [apply apply_deviations_inv|]; assumption.
+Qed.
+
+Lemma stage_F3_inv : ForestInv false (stage_F3 SC ic order).
+Proof.
+  unfold stage_F3, stage_final. destruct stage_rounds_inv as [A B].
+  apply final_fold_inv; assumption.
+Qed.
+
+Lemma stage_F4_inv : ForestInv false (stage_F4 SC ic ins order).
+Proof. unfold stage_F4, stage_dev. apply dev_fold_inv. apply stage_F3_inv. Qed.
+
+(* T1 (without the choice clause): unconditional *)
+Theorem Process_TreeInv_weak : forall F, Process SC ic ins order = ROk F -> ForestInv false F.
+Proof.
+  intros F H. rewrite Process_stages in H.
+  destruct (includes_fail SC); [discriminate|]. destruct (build_fail SC ic); [discriminate|].
+  destruct (stage_err4 SC ic ins order); [discriminate|]. inversion H; subst. apply stage_F4_inv.
+Qed.
+
+End ProcessInv.
+
+(* ------------------------------------------------------------------ the choice clause *)
+Lemma HeightLe_depth : forall fuel e, HeightLe fuel e -> HeightLe (depth fuel e) e.
+Proof.
+  induction fuel as [|f IH]; intros e H; inversion H as [n e' HD HR]; subst.
+  cbn [depth]. constructor.
+  - intros d E. rewrite E. specialize (HD d E). rewrite Forall_forall in *. intros x Hx.
+    apply (HeightLe_mono _ _ (IH _ (HD x Hx))).
+    assert (In (depth f (snd x)) (map (fun kv => depth f (snd kv)) d)) by (apply in_map_iff; exists x; auto).
+    clear - H0. revert H0. generalize (map (fun kv : str * entry => depth f (snd kv)) d) as l.
+    intros l Hl.
+    assert (G : forall l', depth f (snd x) <= fold_right Nat.max 0 (l ++ l')).
+    { induction l as [|a l IHl]; [destruct Hl|]. intros l'. cbn [app fold_right]. destruct Hl as [->|Hl]; [lia|].
+      specialize (IHl Hl l'). lia. }
+    apply G.
+  - intros i o E. rewrite E. destruct (HR i o E) as [A B].
+    assert (G : forall (l l' : list nat) v, In v l' -> v <= fold_right Nat.max 0 (l ++ l')).
+    { induction l as [|a l IHl]; intros l' v Hv; cbn [app fold_right].
+      - induction l' as [|b l' IHl']; [destruct Hv|]. cbn [fold_right]. destruct Hv as [->|Hv]; [lia|]. specialize (IHl' Hv). lia.
+      - specialize (IHl l' v Hv). lia. }
+    split; intros x Ex; subst.
+    + apply (HeightLe_mono _ _ (IH _ (A x eq_refl))). apply G. apply in_or_app. left. left. reflexivity.
+    + apply (HeightLe_mono _ _ (IH _ (B x eq_refl))). apply G. apply in_or_app. right. destruct i; left; reflexivity.
+Qed.
+
+Lemma fold_max_ge : forall (l : list nat) v, In v l -> v <= fold_right Nat.max 0 l.
+Proof.
+  induction l as [|a l IH]; intros v Hv; [destruct Hv|]. cbn [fold_right].
+  destruct Hv as [->|Hv]; [lia|]. specialize (IH v Hv). lia.
+Qed.
+
+Lemma fix_all_strict : forall SC F, ForestInv false F -> ForestHeight SC F -> ForestInv true (fix_all SC F).
+Proof.
+  intros SC F HI HH. unfold fix_all, ForestInv, ForestHeight in *.
+  rewrite Forall_forall in HI, HH. apply Forall_forall. intros x Hx.
+  apply in_map_iff in Hx. destruct Hx as [kv [E I]]. subst x. cbn [snd].
+  apply (fix_choice_strict _ (depth (entry_fuel SC) (snd kv))).
+  - apply HeightLe_depth. apply (HH _ I).
+  - assert (depth (entry_fuel SC) (snd kv) <= fold_right Nat.max 0 (map (fun kv0 => depth (entry_fuel SC) (snd kv0)) F)).
+    { apply fold_max_ge. apply in_map_iff. exists kv. auto. }
+    lia.
+  - apply (HI _ I).
+Qed.
+
+Section Strict.
+Variable SC : schema.
+Variable ic ins : bool.
+Variable order : list str.
+
+Lemma rounds_strict : forall n_aug fuel round F err P mods,
+  ForestInv false F -> PendOk P ->
+  Forall (ForestHeight SC) (rounds_pre SC n_aug fuel round F err P mods) ->
+  (fuel = 0 -> ForestInv true F) ->
+  ForestInv true (fst (fst (fst (rounds SC n_aug fuel round F err P mods)))).
+Proof.
+  intros n_aug. induction fuel as [|f IH]; intros round F err P mods HF HP HT H0; cbn [rounds]; [auto|].
+  cbn [rounds_pre] in HT.
+  pose proof (augment_loop_inv SC (S n_aug) F err P mods O HF HP) as [A B].
+  destruct (augment_loop SC (S n_aug) F err P mods O) as [[[[Fa erra] Pa] modsa] applied]. cbn [fst snd] in A, B.
+  inversion HT as [|x l HFa HT']; subst.
+  pose proof (fix_all_strict SC Fa A HFa) as C.
+  pose proof (fix_all_inv SC Fa A) as C'.
+  destruct modsa as [|m0 modsa']; [exact C|].
+  destruct round as [|r]; [apply IH; auto|].
+  destruct applied; [exact C | apply IH; auto].
+Qed.
+
+Lemma stage_F2_strict : heights_ok SC ic order -> ForestInv true (stage_F2 SC ic order).
+Proof.
+  intro H. unfold stage_F2, stage_rounds. apply rounds_strict.
+  - apply stage_F0_inv.
+  - apply stage_P0_ok.
+  - exact H.
+  - discriminate.
+Qed.
+
+(* a pass of Augment that applies nothing only looks paths up (which may create rpc input/output) *)
+Lemma augment_module_idle : forall s pending F err addErrors,
+  ForestInv s F -> snd (fst (augment_module SC F err pending addErrors)) = 0 ->
+  ForestInv s (fst (fst (fst (augment_module SC F err pending addErrors)))).
+Proof.
+  intros s. induction pending as [|a rest IH]; intros F err addErrors HF HN; cbn [augment_module] in *; [assumption|].
+  pose proof (Find_inv SC s F (a_mod a) (m_name (a_mod a), []) (a_path a) HF) as HF1.
+  destruct (Find SC F (a_mod a) (m_name (a_mod a), []) (a_path a)) as [target F1]. cbn [snd] in HF1.
+  match goal with |- context [if ?c then _ else _] => destruct c end.
+  - destruct target as [p|]; [|assumption].
+    match type of HN with context [augment_module SC ?F2 ?e2 rest addErrors] =>
+      destruct (augment_module SC F2 e2 rest addErrors) as [[[F3 err3] n] un] end.
+    cbn [fst snd] in HN. discriminate.
+  - specialize (IH F1 (err || addErrors) addErrors HF1).
+    destruct (augment_module SC F1 (err || addErrors) rest addErrors) as [[[F3 err3] n] un].
+    cbn [fst snd] in *. apply IH. assumption.
+Qed.
+
+Definition step_n (st : forest * bool * pendings) (mn : str) : nat :=
+  snd (fst (augment_module SC (fst (fst st)) (snd (fst st))
+                           (match lookup mn (snd st) with Some l => l | None => [] end) true)).
+
+Lemma final_step_cnt_eq : forall st c mn,
+  final_step_cnt SC (st, c) mn = (final_step SC st mn, c + step_n st mn).
+Proof.
+  intros [[F err] P] c mn. unfold final_step_cnt, final_step, step_n. cbn [fst snd].
+  destruct (augment_module SC F err _ true) as [[[F' err'] n] un]. reflexivity.
+Qed.
+
+Lemma final_cnt_fst : forall mods st c,
+  fst (fold_left (final_step_cnt SC) mods (st, c)) = fold_left (final_step SC) mods st.
+Proof.
+  induction mods as [|mn mods IH]; intros st c; cbn [fold_left]; [reflexivity|].
+  rewrite final_step_cnt_eq. apply IH.
+Qed.
+
+Lemma final_cnt_mono : forall mods st c, c <= snd (fold_left (final_step_cnt SC) mods (st, c)).
+Proof.
+  induction mods as [|mn mods IH]; intros st c; cbn [fold_left]; [apply Nat.le_refl|].
+  rewrite final_step_cnt_eq. specialize (IH (final_step SC st mn) (c + step_n st mn)). lia.
+Qed.
+
+Lemma final_fold_idle : forall s mods st c,
+  ForestInv s (fst (fst st)) -> snd (fold_left (final_step_cnt SC) mods (st, c)) = 0 ->
+  ForestInv s (fst (fst (fold_left (final_step SC) mods st))).
+Proof.
+  intros s. induction mods as [|mn mods IH]; intros st c HF HN; cbn [fold_left] in *; [assumption|].
+  rewrite final_step_cnt_eq in HN.
+  pose proof (final_cnt_mono mods (final_step SC st mn) (c + step_n st mn)) as M.
+  apply (IH _ (c + step_n st mn)); [|assumption].
+  assert (Z : step_n st mn = 0) by lia. clear - HF Z.
+  destruct st as [[F err] P]. unfold step_n in Z. unfold final_step. cbn [fst snd] in *.
+  pose proof (augment_module_idle s (match lookup mn P with Some l => l | None => [] end) F err true HF Z) as ID.
+  destruct (augment_module SC F err _ true) as [[[F' err'] n] un]. exact ID.
+Qed.
+
+(* T1 with the choice clause, under the two explicit side conditions *)
+Theorem Process_TreeInv_full : forall F,
+  Process SC ic ins order = ROk F ->
+  final_applied SC ic order = 0 -> heights_ok SC ic order -> ForestInv true F.
+Proof.
+  intros F H HA HH. rewrite Process_stages in H.
+  destruct (includes_fail SC); [discriminate|]. destruct (build_fail SC ic); [discriminate|].
+  destruct (stage_err4 SC ic ins order); [discriminate|]. inversion H; subst.
+  unfold stage_F4, stage_dev. apply dev_fold_inv. unfold stage_F3, stage_final.
+  apply (final_fold_idle true _ _ 0); [apply stage_F2_strict; assumption | exact HA].
+Qed.
+
+End Strict.
+
+Lemma height_ok_sound : forall n e, height_ok n e = true -> HeightLe n e.
+Proof.
+  induction n as [|n IH]; intros e H; cbn [height_ok] in H; [discriminate|].
+  apply andb_true_iff in H. destruct H as [H1 H2]. constructor.
+  - intros d E. rewrite E in H1. rewrite forallb_forall in H1. apply Forall_forall. intros x Hx. apply IH. apply H1. assumption.
+  - intros i o E. rewrite E in H2. apply andb_true_iff in H2. destruct H2 as [A B].
+    split; intros x Ex; subst; apply IH; assumption.
+Qed.
+
+Lemma heights_okb_sound : forall SC ic order, heights_okb SC ic order = true -> heights_ok SC ic order.
+Proof.
+  intros SC ic order H. unfold heights_okb in H. unfold heights_ok, ForestHeight.
+  rewrite forallb_forall in H. apply Forall_forall. intros F HF. specialize (H F HF).
+  rewrite forallb_forall in H. apply Forall_forall. intros kv Hkv. apply height_ok_sound. apply H. assumption.
+Qed.
+
+Theorem Process_TreeInv_full_b : forall SC ic ins order F,
+  Process SC ic ins order = ROk F ->
+  final_applied SC ic order = 0 -> heights_okb SC ic order = true -> ForestInv true F.
+Proof. intros. eapply Process_TreeInv_full; eauto. apply heights_okb_sound. assumption. Qed.
+
+(* ------------------------------------------------------------------ T2: a clean result means no error at any stage *)
+Definition pend_of (P : pendings) (mn : str) : list aug := match lookup mn P with Some l => l | None => [] end.
+
+Section Clean.
+Variable SC : schema.
+
+(* the error flag only ever rises *)
+Lemma augment_module_err_mono : forall pending F err addErrors,
+  err = true -> snd (fst (fst (augment_module SC F err pending addErrors))) = true.
+Proof.
+  induction pending as [|a rest IH]; intros F err addErrors E; cbn [augment_module]; [assumption|].
+  destruct (Find SC F (a_mod a) (m_name (a_mod a), []) (a_path a)) as [target F1].
+  match goal with |- context [if ?c then _ else _] => destruct c end.
+  - destruct target as [p|]; [|assumption].
+    match goal with |- context [augment_module SC ?F2 ?e2 rest addErrors] =>
+      specialize (IH F2 e2 addErrors); destruct (augment_module SC F2 e2 rest addErrors) as [[[F3 err3] n] un] end.
+    cbn [fst snd] in *. apply IH. subst. reflexivity.
+  - specialize (IH F1 (err || addErrors) addErrors).
+    destruct (augment_module SC F1 (err || addErrors) rest addErrors) as [[[F3 err3] n] un].
+    cbn [fst snd] in *. apply IH. subst. reflexivity.
+Qed.
+
+(* Augment(true): an augment left unapplied is always reported *)
+Lemma augment_module_report : forall pending F err,
+  snd (augment_module SC F err pending true) <> [] ->
+  snd (fst (fst (augment_module SC F err pending true))) = true.
+Proof.
+  induction pending as [|a rest IH]; intros F err HN; cbn [augment_module] in *; [exfalso; apply HN; reflexivity|].
+  destruct (Find SC F (a_mod a) (m_name (a_mod a), []) (a_path a)) as [target F1].
+  destruct target as [p|].
+  - match goal with |- context [if ?c then _ else _] => destruct c end.
+    + match goal with |- context [augment_module SC ?F2 ?e2 rest true] =>
+        specialize (IH F2 e2); destruct (augment_module SC F2 e2 rest true) as [[[F3 err3] n] un] end.
+      cbn [fst snd] in *. apply IH. assumption.
+    + pose proof (augment_module_err_mono rest F1 (err || true) true (orb_true_r err)) as M.
+      destruct (augment_module SC F1 (err || true) rest true) as [[[F3 err3] n] un]. exact M.
+  - pose proof (augment_module_err_mono rest F1 (err || true) true (orb_true_r err)) as M.
+    destruct (augment_module SC F1 (err || true) rest true) as [[[F3 err3] n] un]. exact M.
+Qed.
+
+Lemma augment_module_nil : forall F err addErrors, augment_module SC F err [] addErrors = (F, err, 0, []).
+Proof. reflexivity. Qed.
+
+Lemma final_step_err_mono : forall st mn, snd (fst st) = true -> snd (fst (final_step SC st mn)) = true.
+Proof.
+  intros [[F err] P] mn E. cbn [fst snd] in E. unfold final_step.
+  pose proof (augment_module_err_mono (match lookup mn P with Some l => l | None => [] end) F err true E) as M.
+  destruct (augment_module SC F err _ true) as [[[F' err'] n] un]. exact M.
+Qed.
+
+Lemma final_fold_err_mono : forall mods st, snd (fst st) = true -> snd (fst (fold_left (final_step SC) mods st)) = true.
+Proof.
+  induction mods as [|mn mods IH]; intros st E; cbn [fold_left]; [assumption|].
+  apply IH. apply final_step_err_mono. assumption.
+Qed.
+
+Lemma pend_of_update : forall P mn un mn',
+  pend_of (update mn un P) mn' = if str_eqb mn mn' then (match lookup mn P with Some _ => un | None => [] end) else pend_of P mn'.
+Proof.
+  intros. unfold pend_of. destruct (str_eqb mn mn') eqn:E.
+  - apply str_eqb_eq in E. subst mn'. destruct (lookup mn P) eqn:L.
+    + rewrite lookup_update_same; [reflexivity | congruence].
+    + assert (lookup mn (update mn un P) = None).
+      { apply lookup_none. rewrite update_keys. apply lookup_none. assumption. }
+      rewrite H. reflexivity.
+  - apply str_eqb_neq in E. rewrite lookup_update_other; [reflexivity | assumption].
+Qed.
+
+(* after a clean reporting pass no visited module has a pending augment *)
+Lemma final_fold_clean : forall mods st,
+  snd (fst (fold_left (final_step SC) mods st)) = false ->
+  forall mn, In mn mods \/ pend_of (snd st) mn = [] -> pend_of (snd (fold_left (final_step SC) mods st)) mn = [].
+Proof.
+  induction mods as [|m0 mods IH]; intros st E mn H; cbn [fold_left] in *.
+  - destruct H as [[]|H]; assumption.
+  - apply IH; [assumption|].
+    destruct (str_eq_dec m0 mn) as [->|NE].
+    + right. destruct st as [[F err] P]. unfold final_step. cbn [snd].
+      pose proof (augment_module_report (match lookup mn P with Some l => l | None => [] end) F err) as R.
+      assert (E0 : snd (fst (final_step SC (F, err, P) mn)) = false).
+      { destruct (snd (fst (final_step SC (F, err, P) mn))) eqn:X; [|reflexivity].
+        rewrite (final_fold_err_mono mods _ X) in E. discriminate. }
+      unfold final_step in E0.
+      destruct (augment_module SC F err _ true) as [[[F' err'] n] un]. cbn [fst snd] in *.
+      rewrite pend_of_update, str_eqb_refl.
+      destruct un; [destruct (lookup mn P); reflexivity|].
+      rewrite R in E0; [discriminate | discriminate].
+    + destruct H as [[H|H]|H]; [contradiction | left; assumption |].
+      right. destruct st as [[F err] P]. unfold final_step. cbn [snd] in *.
+      destruct (augment_module SC F err _ true) as [[[F' err'] n] un]. cbn [snd].
+      rewrite pend_of_update. apply str_eqb_neq in NE. rewrite NE. assumption.
+Qed.
+
+End Clean.
+
+(* ------------------------------------------------------------------ deviations: the flag only rises *)
+Lemma apply_deviates_err_mono : forall ins dvs F p cur attached err,
+  err = true -> snd (apply_deviates ins F p cur attached err dvs) = true.
+Proof.
+  intros ins. induction dvs as [|dv rest IH]; intros F p cur attached err E; cbn [apply_deviates]; [assumption|].
+  destruct (str_eqb (dv_kind dv) s_notsupported).
+  - destruct (rev (snd p)) as [|last up]; [apply IH; reflexivity|].
+    destruct ins; [apply IH; assumption|]. destruct last; apply IH; subst; reflexivity.
+  - destruct (_ || _).
+    + destruct (apply_add_replace _ dv cur). apply IH. subst. reflexivity.
+    + destruct (str_eqb (dv_kind dv) s_delete); [|apply IH; reflexivity].
+      destruct (apply_delete dv cur). apply IH. subst. reflexivity.
+Qed.
+
+Lemma apply_deviations_err_mono : forall SC ins m devs F err,
+  err = true -> snd (apply_deviations SC ins F err m devs) = true.
+Proof.
+  intros SC ins m. induction devs as [|[path dvs] rest IH]; intros F err E; cbn [apply_deviations]; [assumption|].
+  destruct (Find SC F m (m_name m, []) path) as [target F1].
+  destruct target as [p|]; [|apply IH; reflexivity].
+  destruct (locate_pos F1 p) as [cur|]; [|apply IH; reflexivity].
+  pose proof (apply_deviates_err_mono ins dvs F1 p cur true err E) as M.
+  destruct (apply_deviates ins F1 p cur true err dvs) as [[[F2 cur'] attached] err']. cbn [snd] in M.
+  apply IH. assumption.
+Qed.
+
+Lemma dev_fold_err_mono : forall SC ins mods st, snd st = true -> snd (fold_left (dev_step SC ins) mods st) = true.
+Proof.
+  intros SC ins. induction mods as [|mn mods IH]; intros st E; cbn [fold_left]; [assumption|].
+  apply IH. unfold dev_step. destruct (find_module SC mn); [apply apply_deviations_err_mono|]; assumption.
+Qed.
+
+Section CleanProcess.
+Variable SC : schema.
+Variable ic ins : bool.
+Variable order : list str.
+
+(* T2: the complete list of ways to RErr *)
+Theorem Process_err_iff :
+  Process SC ic ins order = RErr <->
+  includes_fail SC = true \/ (exists m, In m SC /\ snd (module_entry SC ic m) = true) \/ stage_err4 SC ic ins order = true.
+Proof.
+  rewrite Process_stages. unfold build_fail. split.
+  - destruct (includes_fail SC); [auto|].
+    destruct (existsb _ SC) eqn:B.
+    + intros _. right. left. apply existsb_exists in B. exact B.
+    + destruct (stage_err4 SC ic ins order); [auto | discriminate].
+  - intros [H|[H|H]].
+    + rewrite H. reflexivity.
+    + destruct (includes_fail SC); [reflexivity|].
+      assert (B : existsb (fun m => snd (module_entry SC ic m)) SC = true) by (apply existsb_exists; exact H).
+      rewrite B. reflexivity.
+    + destruct (includes_fail SC); [reflexivity|]. destruct (existsb _ SC); [reflexivity|]. rewrite H. reflexivity.
+Qed.
+
+(* an error flagged by the augment stage or the reporting pass is never lost *)
+Theorem stage_err_mono :
+  (stage_err1 SC ic order = true -> stage_err3 SC ic order = true) /\
+  (stage_err3 SC ic order = true -> stage_err4 SC ic ins order = true).
+Proof.
+  split.
+  - intro H. unfold stage_err3, stage_final. apply final_fold_err_mono. exact H.
+  - intro H. unfold stage_err4, stage_dev. apply dev_fold_err_mono. exact H.
+Qed.
+
+(* no pending augment in a clean result: every module the reporting pass visits ends with an empty list *)
+Theorem Process_ok_no_pending : forall F,
+  Process SC ic ins order = ROk F ->
+  forall mn, In mn (stage_mods1 SC ic order) -> pend_of (stage_P3 SC ic order) mn = [].
+Proof.
+  intros F H mn Hmn. rewrite Process_stages in H.
+  destruct (includes_fail SC); [discriminate|]. destruct (build_fail SC ic); [discriminate|].
+  destruct (stage_err4 SC ic ins order) eqn:E4; [discriminate|].
+  assert (E3 : stage_err3 SC ic order = false).
+  { destruct (stage_err3 SC ic order) eqn:X; [|reflexivity].
+    rewrite (proj2 stage_err_mono X) in E4. discriminate. }
+  unfold stage_P3, stage_final. apply final_fold_clean; [exact E3 | left; exact Hmn].
+Qed.
+
+End CleanProcess.
